@@ -4,3 +4,7 @@ from checks import c04
 
 def run(chk, replay):
     c04.run_prop(chk, replay, "C20")
+    if not replay:
+        # the working directory changes between validations: what the validator accepted is what the reader reads (PoolEnv.tla)
+        from harness import poolenv
+        poolenv.tool_phase(chk, "taste-read")
